@@ -324,6 +324,9 @@ func c17ReadOnly(sh *explore.Shard) {
 			}
 			elsewhere := filepath.Join(dir, "elsewhere")
 			os.MkdirAll(elsewhere, 0o755)
+			// the symbolic link one of the addressing modes starts from (part of the
+			// set-up, so that it is in the "before" snapshot too)
+			os.Symlink(filepath.Join(work, "d"), filepath.Join(dir, "link"))
 			var firstOut []byte
 			for mi, m := range modes {
 				if m.name == "bare copy" {
